@@ -10,6 +10,7 @@ import (
 	"encoding/base64"
 	"fmt"
 	"sort"
+	"strings"
 	"time"
 
 	sdkmath "cosmossdk.io/math"
@@ -19,6 +20,7 @@ import (
 	cctptypes "github.com/circlefin/noble-cctp/x/cctp/types"
 	ftftypes "github.com/circlefin/noble-fiattokenfactory/x/fiattokenfactory/types"
 	sdk "github.com/cosmos/cosmos-sdk/types"
+	authtypes "github.com/cosmos/cosmos-sdk/x/auth/types"
 	banktypes "github.com/cosmos/cosmos-sdk/x/bank/types"
 	transfertypes "github.com/cosmos/ibc-go/v8/modules/apps/transfer/types"
 	clienttypes "github.com/cosmos/ibc-go/v8/modules/core/02-client/types"
@@ -342,7 +344,12 @@ func (s *Sim) execDust(op Op) {
 	if op.Signer != "" && s.acct(op.Signer) != nil {
 		from = s.acct(op.Signer)
 	}
-	msg := &banktypes.MsgSend{FromAddress: from.Addr.String(), ToAddress: s.Env.Orbiter.String(), Amount: sdk.NewCoins(sdk.NewCoin(op.Denom, amt))}
+	to := s.Env.Orbiter.String()
+	if strings.HasPrefix(op.Target, "mod:") {
+		// a plain bank send to the address of a module account (the reference application blocks only a few of them)
+		to = authtypes.NewModuleAddress(op.Target[4:]).String()
+	}
+	msg := &banktypes.MsgSend{FromAddress: from.Addr.String(), ToAddress: to, Amount: sdk.NewCoins(sdk.NewCoin(op.Denom, amt))}
 	s.enqueue(&PendingTx{Signer: from, Gas: 1_000_000, Msgs: []sdk.Msg{msg}, Meta: &txMeta{OpID: op.ID, Kind: "dust", Op: op}})
 }
 
@@ -505,6 +512,23 @@ func (s *Sim) execHypToken(op Op) {
 	s.Stats.Fault("simulated_tx_discarded")
 	s.Stats.Probe("ghost_token_simulated")
 	s.logf("ghost: simulated creation of token %s for %s with %d messages (err=%v); nothing of it is committed", idStr, op.Denom, len(msgs), err)
+}
+
+// bridgeModules: the module accounts a route's bridge moves coins through.
+var bridgeModules = map[string][]string{
+	"PROTOCOL_CCTP":      {"cctp", "fiat-tokenfactory"},
+	"PROTOCOL_HYPERLANE": {"warp", "hyperlane"},
+}
+
+// squatted: the address of a module account holds an account that is not a module account (somebody sent coins
+// there before the module first used it); the module's keeper panics from then on.
+func (s *Sim) squatted(module string) bool {
+	acc := s.N.App.AccountKeeper.GetAccount(s.N.Ctx(), authtypes.NewModuleAddress(module))
+	if acc == nil {
+		return false
+	}
+	_, isMod := acc.(sdk.ModuleAccountI)
+	return !isMod
 }
 
 func (s *Sim) inflightCount() int {
